@@ -87,13 +87,23 @@ def run_sources(unit, part):
     from mc.app import P
     from mc.solo import Solo
     src, flavour = unit['src_kind'], unit['flavour']
+    as_channel = unit.get('as_channel', False)  # the source feeds a channel responder whose requester keeps its own direction open
+    simple = src in ('empty', 'error')
     for k, raise_at, delay_ms, n0, rns in itertools.product((1, 3), (None, 0, 1, 2), (0, 10), (1, 2, 0x7FFFFFFF), ((), (1,), (2, 2), (0x7FFFFFFF,))):
         if raise_at is not None and raise_at > k:
+            continue
+        if simple and (k != 1 or raise_at is not None or delay_ms):
             continue
         for cancel_at in (None, 0, 1):
             def make():
                 els = [P(b'e%d' % i) for i in range(k)]
                 delay = timedelta(milliseconds=delay_ms)
+                if src == 'empty':
+                    from rsocket.streams.empty_stream import EmptyStream
+                    return EmptyStream()
+                if src == 'error':
+                    from rsocket.streams.error_stream import ErrorStream
+                    return ErrorStream(RuntimeError('source fails'))
                 if src == 'gen':
                     from rsocket.streams.stream_from_generator import StreamFromGenerator
 
@@ -118,9 +128,11 @@ def run_sources(unit, part):
 
                 return StreamFromAsyncGenerator(agen, delay_between_messages=delay)
 
-            s = Solo('server', flavour, beh={'request_stream': lambda h, p: make()})
+            from mc.app import RecSubscriber
+            s = Solo('server', flavour, beh={'request_stream': lambda h, p: make(),
+                                             'request_channel': lambda h, p: (make(), RecSubscriber(h.w, h.ep, 'chsub', request_on_subscribe=2))})
             try:
-                s.peer(R.enc_request(R.REQUEST_STREAM, 1, b'q', n=n0))
+                s.peer(R.enc_request(R.REQUEST_CHANNEL if as_channel else R.REQUEST_STREAM, 1, b'q', n=n0))
                 for i, rn in enumerate(rns):
                     if cancel_at == i:
                         s.peer(R.enc_cancel(1))
@@ -140,7 +152,7 @@ def run_sources(unit, part):
                 if raise_at is not None or delay_ms or cancel_at is not None:
                     part.nontriv((src, k, raise_at, delay_ms, n0, rns, cancel_at))
                 for rule, sig, detail in v:
-                    part.violate(rule, sig + ' | source=%s%s%s' % (src, '/raises' if raise_at is not None else '', '/paced' if delay_ms else ''), detail,
+                    part.violate(rule, sig + ' | source=%s%s%s%s' % (src, '/raises' if raise_at is not None else '', '/paced' if delay_ms else '', '/channel' if as_channel else ''), detail,
                                  {'kind': 'sources', 'unit': unit, 'k': k, 'raise_at': raise_at, 'delay_ms': delay_ms, 'n0': n0, 'rns': list(rns), 'cancel_at': cancel_at})
             finally:
                 s.teardown()
@@ -152,6 +164,10 @@ def make_units(tier):
     for src_kind in ('gen', 'agen'):
         for flavour in ('tcp', 'msg'):
             units.append({'src': 'sources', 'src_kind': src_kind, 'flavour': flavour, 'bound': 0, 'name': 'sources', 'shard': [0, 1], 'fs': None})
+        units.append({'src': 'sources', 'src_kind': src_kind, 'flavour': 'tcp', 'bound': 0, 'name': 'sources', 'shard': [0, 1], 'fs': None, 'as_channel': True})
+    for src_kind in ('empty', 'error'):  # the library's EmptyStream / ErrorStream sources, under several credit frames
+        for as_channel in (False, True):
+            units.append({'src': 'sources', 'src_kind': src_kind, 'flavour': 'tcp', 'bound': 0, 'name': 'sources', 'shard': [0, 1], 'fs': None, 'as_channel': as_channel})
     for flavour, fs in (('tcp', None), ('msg', 64)):
         for first in (('L', 1), ('L', 2), ('R', 'stream'), ('R', 'channel'), ('R', 'rr')):
             units.append({'src': 'lease', 'flavour': flavour, 'fs': fs, 'first': list(first), 'depth': 4 if tier == 'quick' else 5,
